@@ -15,6 +15,10 @@ def plan_C01(ctx):
     run_family(ctx, "build_obs", n_of(ctx, 300, 6000), perfile=n_of(ctx, 20, 40))
     run_family(ctx, "build_big", n_of(ctx, 14, 168), perfile=1)          # sizes and cardinalities on the chunking constants
     run_family(ctx, "many_fields", n_of(ctx, 8, 120), perfile=2, seed_off=2)
+    run_family(ctx, "extremes", n_of(ctx, 3, 36), perfile=1)                    # long names/terms, hundreds of terms and locations
+    run_family(ctx, "huge", n_of(ctx, 2, 8), perfile=1)                          # document numbers beyond 16 bits
+    if not ctx.quick:
+        run_family(ctx, "field_limit", 2, perfile=1)                            # 65535 fields: the 16-bit field id limit
     canary(ctx)
 
 
@@ -143,9 +147,15 @@ def e1_gen_api(ctx):
 def e2_gen_api(ctx, num):
     """E2: random API histories of the generative Level-A machine, a digest after every step"""
     import lift
+    # many more histories are simulated than executed: a third of the executed ones are drawn from those that
+    # contain a merge with a caller-owned bitmap (rare in a uniform random walk), so that no seed runs without them
     behs = tlc_emit(ctx, "GenAPI", "Gen_GenAPI.cfg", os.path.join(ctx.work, "beh-api.json"),
-                    extra=["-simulate", "num=%d" % num, "-depth", "20", "-seed", str(ctx.seed)])
-    behs = lift.dedupe(behs)[:num]
+                    extra=["-simulate", "num=%d" % max(20 * num, 2000), "-depth", "20", "-seed", str(ctx.seed)])
+    behs = lift.dedupe(behs)
+    rare = [b for b in behs if any(h["op"] == "merge" and any(h["drops"]) for h in b["hist"])]
+    pick = rare[:max(num // 3, 4)]
+    keys = set(json.dumps(b, sort_keys=True) for b in pick)
+    behs = pick + [b for b in behs if json.dumps(b, sort_keys=True) not in keys][:num - len(pick)]
     run_scenarios(ctx, [lift.lift_api(b, i) for i, b in enumerate(behs)], "e2api", perfile=10, shards=4)
 
 
@@ -197,6 +207,9 @@ def plan_C05(ctx):
     run_family(ctx, "reuse_pairs", n_of(ctx, 324, 972), perfile=54, seed_off=3)
     run_family(ctx, "iter_big", n_of(ctx, 12, 150), perfile=n_of(ctx, 2, 5))
     run_family(ctx, "build_big", n_of(ctx, 14, 168), perfile=1, seed_off=5)
+    run_family(ctx, "iter_share", n_of(ctx, 120, 2500), perfile=n_of(ctx, 20, 40))   # several iterations alive at once, Close, prealloc hand-over
+    run_family(ctx, "huge", n_of(ctx, 4, 16), perfile=1, seed_off=3)
+    run_family(ctx, "card_boundary", n_of(ctx, 6, 24), perfile=1, seed_off=1)
     require_cov(ctx, "tag:onehit", "tag:multichunk", "tag:excluded", "tag:advance", "tag:replace", "onehit_iter")
     canary(ctx)
 
@@ -216,9 +229,14 @@ def plan_C02(ctx):
     e1_chunking(ctx)
     run_family(ctx, "merge_obs", n_of(ctx, 250, 5000), perfile=n_of(ctx, 20, 40))
     run_family(ctx, "twin_merge", n_of(ctx, 40, 800), perfile=10, seed_off=7)
-    run_family(ctx, "many_fields", n_of(ctx, 6, 100), perfile=2, seed_off=8)
+    run_family(ctx, "many_fields", n_of(ctx, 10, 100), perfile=2, seed_off=8)
     run_family(ctx, "stored_sweep", n_of(ctx, 40, 80), perfile=5, seed_off=1)      # merges read stored fields too
     run_family(ctx, "iter_big", n_of(ctx, 8, 100), perfile=2, seed_off=2)          # cardinality across 1024 by drops
+    run_family(ctx, "extremes", n_of(ctx, 3, 36), perfile=1, seed_off=3)
+    run_family(ctx, "merge_chain", n_of(ctx, 30, 600), perfile=10)                # zero-document inputs, fields known to one input only
+    run_family(ctx, "mass_delete", n_of(ctx, 5, 60), perfile=1)                   # thousands of deletions
+    run_family(ctx, "card_boundary", n_of(ctx, 6, 24), perfile=1)                 # cardinalities on the chunk-size steps, 1-hit inputs
+    run_family(ctx, "huge", n_of(ctx, 2, 8), perfile=1, seed_off=1)
     canary(ctx)
 
 
@@ -226,6 +244,8 @@ def plan_C03(ctx):
     e1_merge_algo(ctx)
     run_family(ctx, "merge_obs", n_of(ctx, 250, 5000), perfile=n_of(ctx, 20, 40), seed_off=3)
     run_family(ctx, "assoc", n_of(ctx, 40, 600), perfile=10, seed_off=4)
+    run_family(ctx, "mass_delete", n_of(ctx, 5, 60), perfile=1, seed_off=2)
+    run_family(ctx, "merge_chain", n_of(ctx, 20, 300), perfile=10, seed_off=2)
     canary(ctx)
 
 
@@ -236,6 +256,10 @@ def plan_C04(ctx):
     run_family(ctx, "roundtrip", n_of(ctx, 150, 3000), perfile=n_of(ctx, 10, 30))
     run_family(ctx, "roundtrip_big", n_of(ctx, 22, 110), perfile=2)
     run_family(ctx, "merge_obs", n_of(ctx, 120, 2500), perfile=20, seed_off=5)
+    run_family(ctx, "extremes", n_of(ctx, 3, 36), perfile=1, seed_off=4)
+    run_family(ctx, "merge_chain", n_of(ctx, 20, 300), perfile=10, seed_off=3)
+    run_family(ctx, "huge", n_of(ctx, 2, 8), perfile=1, seed_off=2)
+    run_family(ctx, "field_limit", n_of(ctx, 1, 4), perfile=1, seed_off=1)     # 65535 fields: the 16-bit field id limit
     canary(ctx)
 
 
@@ -245,6 +269,8 @@ def plan_C06(ctx):
     e2_stored_read(ctx, n_of(ctx, 32, 400))
     run_family(ctx, "stored_shapes", n_of(ctx, 200, 4000), perfile=n_of(ctx, 20, 40))
     run_family(ctx, "stored_sweep", n_of(ctx, 80, 400), perfile=5)
+    run_family(ctx, "extremes", n_of(ctx, 3, 36), perfile=1, seed_off=5)         # stored values of tens of kilobytes
+    run_family(ctx, "huge", n_of(ctx, 2, 8), perfile=1, seed_off=4)
     canary(ctx)
 
 
@@ -333,6 +359,7 @@ def plan_C13(ctx):
     run_family(ctx, "reuse_pairs", n_of(ctx, 324, 1944), perfile=54)     # the whole predecessor/successor matrix
     run_family(ctx, "dict_interleave", n_of(ctx, 80, 1500), perfile=20, seed_off=4)
     run_family(ctx, "dv_walk", n_of(ctx, 8, 100), perfile=2, seed_off=9)
+    run_family(ctx, "iter_share", n_of(ctx, 80, 1500), perfile=20, seed_off=1)
     canary(ctx)
 
 
@@ -359,6 +386,7 @@ def plan_C16(ctx):
     run_family(ctx, "build_obs", n_of(ctx, 100, 2000), perfile=20, seed_off=11)
     run_family(ctx, "roundtrip", n_of(ctx, 60, 1000), perfile=10, seed_off=12)
     run_family(ctx, "many_fields", n_of(ctx, 12, 200), perfile=2)
+    run_family(ctx, "merge_chain", n_of(ctx, 40, 600), perfile=10, seed_off=4)
     canary(ctx)
 
 
@@ -368,6 +396,8 @@ def plan_C17(ctx):
     e1_merge_algo(ctx)
     run_family(ctx, "assoc", n_of(ctx, 120, 2500), perfile=n_of(ctx, 10, 20))
     run_family(ctx, "twin_merge", n_of(ctx, 60, 1200), perfile=10)
+    run_family(ctx, "card_boundary", n_of(ctx, 6, 24), perfile=1, seed_off=2)
+    run_family(ctx, "merge_chain", n_of(ctx, 20, 300), perfile=10, seed_off=5)
     canary(ctx)
 
 
